@@ -458,7 +458,21 @@ def g_vkey(g, depth):
 def g_vkey_witness(g, depth):
     from pycardano.key import ExtendedVerificationKey, VerificationKey
     from pycardano.witness import VerificationKeyWitness
-    return VerificationKeyWitness(VerificationKey(rb(g.rng, 32)), rb(g.rng, 64))
+    # the key is handed over as the caller holds it: plain, role-specific (what `skey.to_verification_key()` returns for a
+    # payment / stake / pool key) or extended — only the 32 key bytes are on the wire, the witness must still equal its round trip
+    from pycardano import key as K
+    r = g.rng.random()
+    if r < 0.25:
+        vk = VerificationKey(rb(g.rng, 32))
+    elif r < 0.45:
+        # what `SigningKey.to_verification_key()` returns: the plain class carrying a role-specific envelope
+        vk = VerificationKey(rb(g.rng, 32), g.rng.choice(["PaymentVerificationKeyShelley_ed25519", "StakeVerificationKeyShelley_ed25519", "X"]),
+                             g.rng.choice(["Payment Verification Key", "Y"]))
+    elif r < 0.8:
+        vk = g.rng.choice([K.PaymentVerificationKey, K.StakeVerificationKey, K.StakePoolVerificationKey])(rb(g.rng, 32))
+    else:
+        vk = g.rng.choice([ExtendedVerificationKey, K.PaymentExtendedVerificationKey, K.StakeExtendedVerificationKey])(rb(g.rng, 64))
+    return VerificationKeyWitness(vk, rb(g.rng, 64))
 
 
 def g_metadata(g, depth):
